@@ -11,7 +11,7 @@ THEOREMS = ['calc_times_spec_thm', 'calc_times_increasing_thm', 'calc_times_empt
 CONFIGS = [dict(jit=True)]
 CONFIGS_THOROUGH = [dict(jit=True), dict(jit=False)]
 RULE = ('random trajectory sets (plain and lumped, 2..5 states, 1..3 trajectories), non-empty unsorted '
-        'lists of positive lags (also above tmax), integer tmax with tmax/lag <= 12 (thorough 40), plus '
+        'lists of positive lags (also above tmax), integer tmax with tmax/lag <= 12 (thorough 24), plus '
         'malformed lags/tmax. Compared: per lag the model times (exact), the curve of every state against '
         'the diagonal of the exact k-th power of the exact model (Hummer-Szabo model for lumped input) '
         'within 1e-10, ergodicity flags (threshold-free cases); the reference grid must be strictly '
@@ -25,15 +25,15 @@ TOL = Fraction(1, 10**10)
 
 
 def gen(rng, tier):
-    n = G.budget(60) if tier == 'quick' else 1500
+    n = G.budget(60) if tier == 'quick' else 700
     for _ in range(n):
-        k = rng.randint(2, 5 if tier == 'quick' else 7)
+        k = rng.randint(2, 5 if tier == 'quick' else 6)
         labs, akind = G.alphabet(rng, k=k)
         trajs = [G.traj(rng, labs, rng.randint(60, 250), sticky=rng.choice([0.4, 0.7, 0.85])) for _ in range(rng.choice([1, 2, 3]))]
         present = sorted({v for t in trajs for v in t})
         if len(present) < 2:
             continue
-        maxk = 12 if tier == 'quick' else 40
+        maxk = 12 if tier == 'quick' else 24
         lags = rng.sample(range(1, 9), rng.randint(1, 3))
         tmax = rng.randint(min(lags), min(lags) * rng.randint(1, maxk))
         lumped = rng.random() < 0.35 and len(present) >= 3
@@ -114,6 +114,16 @@ def judge(case, ibc, answers):
                 reqs.append([901] + C.enested(case['trajs']) + [lag, case['tmax']] + C.eZs(refs))
         ans = C.mrun(reqs)
         refdone = False
+        if res is None and case['lumped']:
+            # the lumped estimate is refused (TypeError) as soon as the micro model at ONE of the lags is not ergodic
+            refusable = False
+            for a in ans:
+                rd0 = C.Reader(a)
+                top0 = rd0.res(lambda: (rd0.res(lambda: rd0.opt(lambda: _eck(rd0))), rd0.bool()))
+                if top0[0] != 'ok' or top0[1][0][0] == 'err' or not top0[1][1]:
+                    refusable = True
+            if refusable and r.get('err') == 'TypeError':
+                continue
         for lag, a in zip(lags, ans):
             rd = C.Reader(a)
             if case['lumped']:
